@@ -22,6 +22,48 @@ def check(repo: Repo, rep, tier):
     nested_drop(repo, rep)
     align_complete(repo, rep)
     zip_lockstep(repo, rep)
+    is_unhashable(repo, rep)
+    from .C11 import by_key, align_operands
+
+    align_operands(repo, rep)
+    from .C05 import positional_map
+
+    # a fix written onto the node of the wrong entry / argument overwrites whatever the user wrote there (an Is(), an expression)
+    by_key(repo, rep)
+    positional_map(repo, rep)
+
+
+def is_unhashable(repo: Repo, rep):
+    rep.rule(
+        "R-IS-UNHASHABLE",
+        "`Is(x)` can only stand where the refresh of user-controlled parts reaches it (list / tuple elements, dict values, call arguments): the class "
+        "defines `__eq__` and no `__hash__`, so Python makes it unhashable and it cannot become a set member or a dict key - containers the adapters treat as "
+        "opaque leaves / copy unchanged.  A hashable Is inside a set is frozen at its first value: the second evaluation raises the 'value should not "
+        "change' usage error or compares against the stale value, where the plain value would simply compare",
+    )
+    c = None
+    for k in repo.all_classes():
+        if k.name == "Is" and k.module.rel == "_is.py":
+            c = k
+    if c is None:
+        rep.undecided("R-IS-UNHASHABLE", "class Is not found in _is.py")
+        return
+    has_eq = "__eq__" in c.methods
+    hash_def = "__hash__" in c.methods
+    hash_asg = [st for st in c.node.body if isinstance(st, ast.Assign) and any(isinstance(t, ast.Name) and t.id == "__hash__" for t in st.targets) and not (isinstance(st.value, ast.Constant) and st.value.value is None)]
+    if has_eq and not hash_def and not hash_asg:
+        rep.ok("R-IS-UNHASHABLE", c.methods["__eq__"], c.node, "Is defines __eq__ without __hash__: unhashable")
+    elif not has_eq:
+        rep.violation("R-IS-UNHASHABLE", list(c.methods.values())[0], c.node, "Is no longer defines __eq__: it does not compare like its value", construct="no-eq")
+    else:
+        rep.violation(
+            "R-IS-UNHASHABLE",
+            c.methods.get("__hash__") or c.methods["__eq__"],
+            c.node,
+            "Is defines __hash__: Is(x) can now be a set member / dict key, where neither the Unmanaged wrapping nor the re-evaluation refresh reaches it - "
+            "on the second evaluation with another x the snapshot raises 'value should not change' or compares against the stale x",
+            construct="hashable",
+        )
 
 
 def _check(repo: Repo, rep, tier):
